@@ -1045,6 +1045,7 @@ def find_guards(body, through_calls=True):
                     out.append(g)
                     break
     for g in out:
+        g.fn = body.fn
         g.a_orig = fn_origins(body.fn, g.a, through_calls)
         g.b_orig = fn_origins(body.fn, g.b, through_calls)
     return out
